@@ -303,6 +303,6 @@ func init() {
 	Props["C01"] = Prop{Level: "model_checking", Run: func(r *mc.Run, tier string) {
 		r.Rules = append(r.Rules, "BFS from a posted 3-chunk file (replication 2) over PostProof by 3 accounts x payload {valid for the challenged chunk, another chunk's proof sent with the challenged index, with its own index, broken hash list; for one account also foreign-file proof, empty item, truncated hash list}, proof for an unknown file, attestation request/sign, block-gas choice (varies the next challenge), NextBlock (1 day; reward blocks every 2nd block); payload validity is known by construction and cross-checked with the Merkle library")
 		r.Assumptions = append(r.Assumptions, "ChunkSize 4, ProofWindow 3, CheckWindow 2, attestation form size 1/min 1", "SHA-256/SHA3 collision freedom")
-		r.AddExplore(C01{}, opts(tier, 8, 13, 60, 1200, 150, 2000))
+		r.AddExplore(C01{}, opts(tier, 9, 14, 60, 1200, 150, 2000))
 	}}
 }
